@@ -38,7 +38,7 @@ pub fn payload_of(it: &Item) -> Payload {
             Asn::from_u32(64496),
         ),
         "o6" => Payload::origin(
-            MaxLenPrefix::new(Prefix::new(IpAddr::V6(Ipv6Addr::from(0x2001_0db8u128 << 96)), 32).unwrap(), None).unwrap(),
+            MaxLenPrefix::new(Prefix::new(IpAddr::V6(Ipv6Addr::from(0x2001_0db8u128 << 96)), 32).unwrap(), Some(48)).unwrap(),
             Asn::from_u32(4_200_000_000),
         ),
         "k1" => Payload::router_key(
